@@ -285,7 +285,10 @@ func specInScope(stack []scope, n int, s scope) bool {
 //@   ensures[C07] visible-name-rejected: (result != nil) == specVarVisible(ctx, token.value, p.prefix)
 //
 //@ func (*Parser).evaluateVarAssignment
+//@   loop 1 invariant[C06] types-of-the-values: len(valuesTypes) == rangeindex + 1 && forall(k, 0, rangeindex + 1, valuesTypes[k] == res(evaluateValues, 0, 0).values[k].ValueType())
+//@   ensures[C06] value-k-has-the-type-of-variable-k: err == nil && isType(result0, "parser.VariableAssignment") ==> len(asType(result0, "parser.VariableAssignment").values) == len(asType(result0, "parser.VariableAssignment").variables) && forall(k, 0, len(asType(result0, "parser.VariableAssignment").variables), specTyped(asType(result0, "parser.VariableAssignment").values[k]) && asType(result0, "parser.VariableAssignment").values[k].ValueType() == asType(result0, "parser.VariableAssignment").variables[k].valueType)
 //@   loop 2 invariant[C02] targets-are-the-defined-variables: len(variables) == rangeindex + 1 && forall(k, 0, rangeindex + 1, has(ctx.variables, specVarKey(ctx, res(evaluateVarNames, 0, 0)[k].value, p.prefix)) && variables[k] == get(ctx.variables, specVarKey(ctx, res(evaluateVarNames, 0, 0)[k].value, p.prefix)))
+//@   loop 2 invariant[C06] variable-k-has-the-type-of-value-k: forall(k, 0, rangeindex + 1, variables[k].valueType == valuesTypes[k]) && len(valuesTypes) == len(res(evaluateVarNames, 0, 0))
 //
 //@ func (*Parser).evaluateIncrementDecrement
 //@   ensures[C01,C02] plus-or-minus-one-on-the-defined-variable: err == nil ==> isType(result0, "parser.VariableAssignment") && len(asType(result0, "parser.VariableAssignment").variables) == 1 && len(asType(result0, "parser.VariableAssignment").values) == 1 && isType(asType(result0, "parser.VariableAssignment").values[0], "parser.BinaryOperation") && asType(asType(result0, "parser.VariableAssignment").values[0], "parser.BinaryOperation").right == specIntLit(1)
@@ -293,6 +296,28 @@ func specInScope(stack []scope, n int, s scope) bool {
 //
 //@ func incrementDecrementStatement
 //@   ensures[C01] same-variable-both-sides: isType(result, "parser.VariableAssignment") && asType(result, "parser.VariableAssignment").variables[0] == variable && asType(asType(asType(result, "parser.VariableAssignment").values[0], "parser.BinaryOperation").left, "parser.VariableEvaluation").Variable == variable && (increment ==> asType(asType(result, "parser.VariableAssignment").values[0], "parser.BinaryOperation").operator == "+") && (!increment ==> asType(asType(result, "parser.VariableAssignment").values[0], "parser.BinaryOperation").operator == "-")
+//
+//@ func (*Parser).evaluateIf
+//@   loop 1 invariant[C06] conditions-so-far-boolean: i >= 0 && (i >= 1 ==> specTyped(ifStatement.ifBranch.condition) && ifStatement.ifBranch.condition.ValueType().IsBool()) && forall(k, 0, len(ifStatement.elifBranches), specTyped(ifStatement.elifBranches[k].condition) && ifStatement.elifBranches[k].condition.ValueType().IsBool())
+//@   ensures[C06] every-condition-boolean: err == nil ==> isType(result0, "parser.If") && specTyped(asType(result0, "parser.If").ifBranch.condition) && asType(result0, "parser.If").ifBranch.condition.ValueType().IsBool() && forall(k, 0, len(asType(result0, "parser.If").elifBranches), specTyped(asType(result0, "parser.If").elifBranches[k].condition) && asType(result0, "parser.If").elifBranches[k].condition.ValueType().IsBool())
+//
+//@ func (*Parser).evaluateFor
+//@   ensures[C06] condition-boolean: err == nil ==> isType(result0, "parser.For") && specTyped(asType(result0, "parser.For").condition) && asType(result0, "parser.For").condition.ValueType().IsBool()
+//
+//@ func (*Parser).evaluateSliceAssignment
+//@   ensures[C06] index-int-value-of-element-type: err == nil ==> isType(result0, "parser.SliceAssignment") && specTyped(asType(result0, "parser.SliceAssignment").index) && asType(result0, "parser.SliceAssignment").index.ValueType().IsInt() && specTyped(asType(result0, "parser.SliceAssignment").value) && asType(result0, "parser.SliceAssignment").Variable.valueType.isSlice && asType(result0, "parser.SliceAssignment").value.ValueType().Equals(NewValueType(asType(result0, "parser.SliceAssignment").Variable.valueType.dataType, false))
+//
+//@ func (*Parser).evaluateValues
+//@   loop 1 invariant[C06] values-so-far-typed: forall(k, 0, len(expressions), specTyped(expressions[k]))
+//@   ensures[C06,C13] typed-and-non-empty: err == nil ==> len(result0.values) >= 1 && forall(k, 0, len(result0.values), specTyped(result0.values[k]))
+//
+//@ func (*Parser).evaluateVarNames
+//@   loop 1 invariant[C13] names-so-far: len(nameTokens) >= 0
+//@   ensures[C13] at-least-one-name: err == nil ==> len(result0) >= 1
+//
+//@ func (*Parser).evaluateCompoundAssignment
+//@   loop 1 invariant[C06] types-of-the-values: len(valuesTypes) == rangeindex + 1 && forall(k, 0, rangeindex + 1, valuesTypes[k] == res(evaluateValues, 0, 0).values[k].ValueType())
+//@   ensures[C06] typed-operation-on-the-defined-variable: err == nil ==> isType(result0, "parser.VariableAssignment") && len(asType(result0, "parser.VariableAssignment").values) == 1 && specTyped(asType(result0, "parser.VariableAssignment").values[0])
 //
 //@ func (*Parser).evaluateBreak
 //@   ensures[C07] only-in-loop-or-switch: (err == nil) == (specInScope(ctx.scopeStack, len(ctx.scopeStack), "for") || specInScope(ctx.scopeStack, len(ctx.scopeStack), "switch"))
